@@ -13,6 +13,7 @@ package main
 // Kill analysis (path-insensitive abstract interpretation with state Unkilled/Killed over the
 // statement structure, interprocedural through summaries):
 //   readBeforeKill(m,f)  some path through m reads f while it is Unkilled
+//   (loops: the body is walked once from the state before the loop; kills inside it do not survive the loop)
 //   killsOnReturn(m,f)   every path to a return of m (for functions whose last result is an
 //                        error: every return whose last result may be nil) has killed f
 // The Go idioms `if err := call(); err != nil { …return }` and `x, err := call()` followed by
@@ -753,18 +754,21 @@ func (w *kwalk) stmt(s ast.Stmt, st kstate) kstate {
 			st = w.stmt(x.Init, st)
 		}
 		w.expr(x.Cond, st)
-		if !st.killed && (w.mayReadNode(x.Body) || w.mayReadNode(x.Post)) {
-			w.readBefore = true
+		// one iteration is walked from the state before the loop (an earlier iteration can only have killed
+		// more): a kill inside the body protects the reads that follow it in the same iteration; the state
+		// after the loop is the state before it (the body may run zero times).  Returns inside the body are
+		// seen by the walk itself.
+		after := w.block(x.Body.List, st)
+		if !after.dead {
+			if x.Post != nil {
+				after = w.stmt(x.Post, after)
+			}
+			w.expr(x.Cond, after)
 		}
-		// returns inside the loop body leave in the current state
-		w.scanReturns(x.Body, st)
 		return st
 	case *ast.RangeStmt:
 		w.expr(x.X, st)
-		if !st.killed && w.mayReadNode(x.Body) {
-			w.readBefore = true
-		}
-		w.scanReturns(x.Body, st)
+		w.block(x.Body.List, st)
 		return st
 	case *ast.SwitchStmt:
 		if x.Init != nil {
